@@ -309,8 +309,14 @@ def validation_plan(run, fams, nontrivial, n_random_quick, n_random_thorough, ru
     return judge(run, nontrivial)
 
 
+ANDROID_PROBES = ["IBinder", "FileDescriptor", "ParcelFileDescriptor", "ParcelableHolder", "android.os.IBinder",
+                  "android.os.ParcelFileDescriptor", "android.os.ParcelableHolder", "java.os.FileDescriptor", "java.io.FileDescriptor",
+                  "os.IBinder", "ibinder", "IBinderX", "XIBinder", "android.os.", "", "android.os.ParcelFileDescriptor2", "Foo"]
+
+
 @plan("C05")
 def c05(run):
+    run.add([{"sid": "", "src": "android-tables", "ops": [{"op": "android", "i": 1, "probes": ANDROID_PROBES}]}])
     return validation_plan(run, ["res", "shadow"], nt_named_type, 300, 3000,
         "TLC enumerates MC_Validate family 'res' (reference name x import subsets x forward declarations x project "
         "items x placement/nesting) exhaustively within the tier's bound; plus seeded random multi-file projects with "
